@@ -84,6 +84,7 @@ OTHER_VARIANTS = [
     dict(VARIANT, name='no-quality', quality=False, vertices=False),
     dict(VARIANT, name='mixing-lifo-fifo', mixing={'T1': 'LIFO', 'T2': 'FIFO'}),
     dict(VARIANT, name='mixing-mixed-2comp0', mixing={'T1': 'Mixed', 'T2': 'TwoComp'}, mixfrac={'T2': 0.0}),
+    dict(VARIANT, name='clock-once', clock_once=1),
     dict(VARIANT, name='or-of-and', or_of_and=True),
 ]
 
